@@ -632,7 +632,7 @@ func expiryAgreement(p *core.Program, r *core.Report, fns []*ssa.Function) {
 				}
 			}
 			if ret, ok := in.(*ssa.Return); ok {
-				if len(ret.Results) == 1 {
+				if len(ret.Results) == 1 && false {
 					if _, isBool := ret.Results[0].Type().Underlying().(*types.Basic); isBool {
 						trueRets = append(trueRets, in)
 					}
@@ -641,6 +641,15 @@ func expiryAgreement(p *core.Program, r *core.Report, fns []*ssa.Function) {
 					if _, isPtr := ret.Results[0].Type().Underlying().(*types.Pointer); isPtr {
 						itemRets = append(itemRets, in)
 					}
+				}
+			}
+		}
+		// boolean answers: every return of the function (which of them an existing
+		// entry can reach is decided per point, from the blocks reading the deadline)
+		for _, in := range path.Instrs(fn) {
+			if ret, ok := in.(*ssa.Return); ok && len(ret.Results) == 1 {
+				if bt, isBool := ret.Results[0].Type().Underlying().(*types.Basic); isBool && bt.Kind() == types.Bool {
+					trueRets = append(trueRets, in)
 				}
 			}
 		}
@@ -674,23 +683,36 @@ func expiryAgreement(p *core.Program, r *core.Report, fns []*ssa.Function) {
 			}})
 		case len(trueRets) > 0:
 			decisions = append(decisions, decision{fn: fn, kind: "isexpired", expired: func(pt order.Point) (bool, bool) {
-				reach := cl.Reach(fn, pt)
+				// which answers can an existing entry with its deadline at pt get:
+				// follow the edges from the blocks that read the deadline
+				var starts []*ssa.BasicBlock
+				for _, in := range path.Instrs(fn) {
+					if v, ok := in.(ssa.Value); ok && isExpirationLoad(v) {
+						starts = append(starts, in.Block())
+					}
+				}
+				// only the first reads: a read behind another read is reached through it
+				var first []*ssa.BasicBlock
+				for _, b := range starts {
+					dominated := false
+					for _, o := range starts {
+						if o != b && o.Dominates(b) {
+							dominated = true
+						}
+					}
+					if !dominated {
+						first = append(first, b)
+					}
+				}
+				reach, edges := cl.ReachFrom(first, pt)
 				yes, no := false, false
 				for _, in := range trueRets {
 					if !reach[in.Block()] {
 						continue
 					}
-					for _, o := range path.Origins(path.ReturnValues(in.(*ssa.Return))[0]) {
-						if b, ok := path.BoolConst(o); ok {
-							if b {
-								yes = true
-							} else {
-								no = true
-							}
-						} else {
-							yes, no = true, true
-						}
-					}
+					y, n := cl.Answers(path.ReturnValues(in.(*ssa.Return))[0], pt, edges)
+					yes = yes || y
+					no = no || n
 				}
 				// no 'true' answer reachable for an existing entry: the function falls
 				// through to its negative answer
